@@ -1,21 +1,46 @@
-"""Memory-datastore group: C12, C13, C15, C16, C17, C31 (all against pkg/storage/memory/memory.go)."""
+"""Memory-datastore group: C12, C13, C15, C16, C17, C31 (all against pkg/storage/memory/memory.go).
+
+Harnesses: harness/pkg/storage/memory/zz_verif_k12.go, _k13.go, _k15.go, _k16.go (K16b, K17b, K31).
+Library models: gosmt/intr_mem.go ((*structpb.Struct).String, ulid.Parse), gosmt/intr_sortunion.go.
+"""
+import os
+
 from specs.common import J
 
 MEM = "pkg/storage/memory"
 
 
-def c12(tier, seed):
+def _write_step_jobs(harness, first, tier, extra=None):
+    """One job per (history size, #deletes, #writes); jobs with 5 or more items also pin the two
+    options (4 jobs) so that no single run dominates the wall clock. Tuple content is symbolic in all."""
     q = tier == "quick"
+    extra = extra or {}
     jobs = []
-    # the forks over (#pre-existing records, #deletes, #writes) are spread over parallel jobs; each job
-    # still forks over the four option combinations and keeps tuple content symbolic
     top = 2 if q else 3
-    for np_ in range(0, top + 1):
+    t = 120000 if q else 900000
+    for n0 in range(0, top + 1):
         for nd in range(0, 3):
             for nw in range(0, 3):
-                if not q and np_ == 3 and nd + nw > 3:
+                size = n0 + nd + nw
+                if q and size > 5:
+                    continue  # thorough tier only
+                if n0 == 3 and nd + nw > 3:
                     continue
-                jobs.append(J(MEM, "VerifK12WriteStep", np=np_, nd=nd, nw=nw, timeout_ms=120000 if q else 600000))
+                p = dict(extra)
+                p.update({first: n0, "nd": nd, "nw": nw})
+                if size >= 5:
+                    for dup in (0, 1):
+                        for miss in (0, 1):
+                            jobs.append(J(MEM, harness, dup=dup, miss=miss, timeout_ms=t, **p))
+                else:
+                    jobs.append(J(MEM, harness, timeout_ms=t, **p))
+    return jobs
+
+
+def c12(tier, seed):
+    jobs = _write_step_jobs("VerifK12WriteStep", "np", tier)
+    # "condition without context" written as nil vs as {} (both read back as {}): on_duplicate=ignore must treat them alike
+    jobs.append(J(MEM, "VerifK12WriteStep", np=1, nd=0, nw=1, ctx=1, timeout_ms=120000))
     return jobs
 
 
@@ -31,30 +56,127 @@ def c13(tier, seed):
         J(MEM, "VerifK13Read", api=1, n=1 if q else 2, conds=1, timeout_ms=t),
         J(MEM, "VerifK13ReadUserTuple", n=n, conds=2, timeout_ms=t),
         J(MEM, "VerifK13ReadUsersetTuples", n=1 if q else 2, restr=2, conds=0, timeout_ms=t),
-        J(MEM, "VerifK13ReadStartingWithUser", n=n, users=2, conds=2 if not q else 1, timeout_ms=t),
-        # suspicions put to the solver (each isolates one input class)
-        J(MEM, "VerifK13ReadUsersetTuples", n=1 if q else 2, restr=1, conds=1, timeout_ms=t),      # H4a: Conditions ignored
-        J(MEM, "VerifK13ReadUsersetTuples", n=1, restr=2, conds=0, duprestr=1, timeout_ms=t),      # H4b: duplicate restrictions
-        J(MEM, "VerifK13ReadUsersetTuples", n=1, restr=1, conds=0, plain=1, timeout_ms=t),         # plain-type restriction
-        J(MEM, "VerifK13ReadStartingWithUser", n=1, users=2, conds=0, dupuf=1, timeout_ms=t),      # duplicate user filters
-        J(MEM, "VerifK13Read", api=0, n=1, conds=1, allcond=1, timeout_ms=t),                      # Conditions with an otherwise empty filter
+        J(MEM, "VerifK13ReadStartingWithUser", n=n, users=2, conds=1 if q else 2, timeout_ms=t),
+        # suspicions put to the solver; each job isolates one input class and tags its messages with [case]
+        J(MEM, "VerifK13ReadUsersetTuples", n=1 if q else 2, restr=1, conds=1, case="conditions", timeout_ms=t),
+        J(MEM, "VerifK13ReadUsersetTuples", n=1, restr=2, conds=0, duprestr=1, case="duplicate-restrictions", timeout_ms=t),
+        J(MEM, "VerifK13ReadUsersetTuples", n=1, restr=1, conds=0, plain=1, case="plain-type-restriction", timeout_ms=t),
+        J(MEM, "VerifK13ReadStartingWithUser", n=1, users=2, conds=0, dupuf=1, case="duplicate-user-filters", timeout_ms=t),
+        J(MEM, "VerifK13Read", api=0, n=1, conds=1, allcond=1, case="conditions-without-key", timeout_ms=t),
     ]
     return jobs
 
 
+def c15(tier, seed):
+    q = tier == "quick"
+    jobs = []
+    # users=1: two tuple keys (d:1, d:2 for user:a) x two conditions, every slot symbolic; all list-length
+    # combinations that two keys admit (request items must be distinct)
+    for n0 in range(0, 3):
+        for nd in range(0, 3):
+            for nw in range(0, 3 - nd):
+                jobs.append(J(MEM, "VerifK15WriteKeepsReplay", n0=n0, nd=nd, nw=nw, users=1, timeout_ms=120000 if q else 900000))
+    if not q:
+        # four keys (two users as well): smaller lists
+        for n0 in range(0, 3):
+            for nd in range(0, 2):
+                for nw in range(0, 2):
+                    if n0 + nd + nw <= 3:
+                        jobs.append(J(MEM, "VerifK15WriteKeepsReplay", n0=n0, nd=nd, nw=nw, users=2, timeout_ms=900000))
+    n = 3 if q else 4
+    t = 120000 if q else 900000
+    jobs += [
+        J(MEM, "VerifK15ReadChangesHorizon", n=2 if q else 3, timeout_ms=t),
+        J(MEM, "VerifK15ReadChangesDesc", n=n, clock=1, timeout_ms=t),
+        J(MEM, "VerifK15ReadChangesDesc", n=1, clock=0, timeout_ms=t),  # abstract (symbolic) clock: token round trip with symbolic ulids
+    ]
+    return jobs
+
+
+def c16(tier, seed):
+    q = tier == "quick"
+    t = 120000 if q else 900000
+    jobs = [
+        J(MEM, "VerifK16bFrame", len=1 if q else 2, models=0, timeout_ms=t),
+        J(MEM, "VerifK16bFrame", models=1, timeout_ms=t),
+        J(MEM, "VerifK16bAssertionKey", len=2 if q else 3, bar=0, timeout_ms=t),
+    ]
+    if os.environ.get("VERIF_EXPLORE"):
+        # outside the claim (ids are ULIDs): with ids that may contain '|' the solver finds the collision
+        # (store "|", model "") vs (store "", model "|") -> both keys "||"; replayed natively. Run with
+        # VERIF_EXPLORE=1 ./check C16 to see it (the check then exits 1 with that VIOLATION).
+        jobs.append(J(MEM, "VerifK16bAssertionKey", len=2, bar=1, timeout_ms=t))
+    return jobs
+
+
+def c17(tier, seed):
+    q = tier == "quick"
+    return [J(MEM, "VerifK17bModelHistory", n=3, len=2 if q else 3, timeout_ms=120000 if q else 900000)]
+
+
+def c31(tier, seed):
+    q = tier == "quick"
+    return [J(MEM, "VerifK31Assertions", n=2 if q else 3, len=2, timeout_ms=120000 if q else 900000)]
+
+
+_TRUST = "trusted: go/ssa, the engine's instruction semantics and library models (listed in the evidence), z3"
+
 SPEC = {
-    "C13": {
-        "jobs": c13,
-        "level_text": "",
-        "level_note": "",
-        "assumptions": [],
-        "outside": [],
-    },
     "C12": {
         "jobs": c12,
-        "level_text": "bounded symbolic execution of one MemoryBackend.Write step from an arbitrary small pre-state against a reference model written in the harness",
-        "level_note": "",
-        "assumptions": [],
-        "outside": [],
+        "level_text": "bounded symbolic execution of one MemoryBackend.Write step (real SSA of Write, sanitizeTuplesWriteDelete, match, find and pkg/tuple helpers) from an arbitrary small pre-state against a 40-line reference model in the harness: for every pre-state, delete list, write list (tuple contents symbolic) and all four on_duplicate/on_missing combinations the solver shows: error => tuples and changelog are the very same objects as before; success => tuples = (old minus deletes) followed by the new writes, exactly one change entry per effective operation (deleted tuples in store order without condition, then writes in request order with their condition), one timestamp, strictly increasing ulids; a missing delete / duplicate write fails the whole request with ErrInvalidWriteInput unless ignored; an existing tuple with another condition under ignore fails with ErrTransactionalWriteFailed",
+        "level_note": "bounds: <= 2 pre-existing records, <= 2 deletes, <= 2 writes with at most 5 items together (quick) / <= 3 records and all of 2+2 (thorough); vocabulary: object d:1|d:2, relation viewer, user user:a|user:b, condition none|c1 (4 keys x 2 conditions, every slot symbolic); preconditions: stored keys pairwise distinct, no tuple twice in one request (validateNoDuplicatesAndCorrectSize); condition contexts nil except in the ctx=1 job (nil vs empty context); memory backend only. " + _TRUST,
+        "assumptions": [
+            "no tuple appears twice within one request (enforced by WriteCommand.validateNoDuplicatesAndCorrectSize)",
+            "stored records have pairwise distinct (object, relation, user)",
+            "(*structpb.Struct).String is modelled for nil (\"<nil>\") and field-less (\"\") structs only (values confirmed natively)",
+            "ulid.MustNew = abstract instant + strictly increasing counter; timestamppb.Now = fresh non-decreasing abstract instant",
+            "the order of delete entries inside one Write is not part of the contract (memory logs them in store order)",
+        ],
+        "outside": ["SQL transaction, crash and connection-failure points (not encodable)", "concurrent Writes (single mutex, not explored here)", "non-empty condition contexts", "more than 3 records / 2 deletes / 2 writes"],
+    },
+    "C13": {
+        "jobs": c13,
+        "level_text": "bounded symbolic execution of MemoryBackend.Read / ReadPage / ReadUserTuple / ReadUsersetTuples / ReadStartingWithUser (real SSA incl. match and the pkg/tuple classification helpers) on <= N records with symbolic content and symbolic filters against reference predicates written in the harness from the doc comments of pkg/storage/storage.go (and the SQL WHERE clauses read by hand): the result is, as a multiset, exactly the records that satisfy the documented meaning of the filter (each once), ReadUserTuple reports ErrNotFound exactly when none does, ReadStartingWithUser is in ascending object order; the iterator protocol and the AsTuple rendering (condition name round trip) are checked separately. Five input classes on which the memory backend deviates are isolated in jobs of their own and are reported as findings",
+        "level_note": "bounds: N = 2 records (quick) / 3 (thorough), ReadUsersetTuples 1 / 2; vocabulary: 2 object types x 2 ids x 2 relations x 7 users (user:a, user:b, user:*, g:x#m, g:y#n, g:*, h:x#m) x 3 condition names (incl. none); filters: object absent / type only / complete, relation absent / set, user absent / type only / complete, Conditions lists of 0..2 names (duplicates and \"\" allowed), <= 2 userset restrictions out of g#m, g#n, h#m, g:*, user:*, <= 2 user filters, ObjectIDs nil / any subset of the ids (incl. empty); result selection is compared on record identity (iterator state), tuple contents through Next on smaller bounds (drain=1). " + _TRUST,
+        "assumptions": [
+            "stored records have pairwise distinct (object, relation, user)",
+            "storage.SortedSet is a list-backed set in the harness (the red-black tree library is outside; the backend only calls Exists)",
+            "a complete user in ReadFilter means string equality of the user field (the SQL back ends would also match usersets of that object)",
+            "unicode.IsControl / UTF-8 decoding as modelled by the engine",
+        ],
+        "outside": ["that sqlite/postgres/mysql implement the same reference", "pagination (C14)", "records and filters outside the vocabulary, condition contexts"],
+    },
+    "C15": {
+        "jobs": c15,
+        "level_text": "bounded symbolic execution: (a) inductive step: in every state reached by Writes (one insert of <= 2 symbolic tuples, optionally a delete) replay(changes) = tuples holds, and after one more arbitrary Write (inputs of C12) it still holds and the changelog grew by exactly the number of effective operations (0 on failure); (b) ReadChanges over a history of <= N Writes at symbolic instants with an arbitrary horizon and type filter returns no change newer than now-horizon, every change older than it, only the exact object type (prefix type:), in order of occurrence, ErrNotFound exactly when nothing qualifies; (c) for every page size the SortDesc page sequence obtained by following tokens is the exact reverse of the ascending one, which is the history",
+        "level_note": "bounds: (a) history <= 2 inserts + <= 1 delete, step with deletes + writes <= 2, vocabulary object d:1|d:2, user user:a, condition none|c1 (quick); thorough adds the four-key vocabulary of C12 with history + request <= 3 items; (b) N = 2 (quick) / 3 Writes, horizon 0..2^40 ns, types d / de, filter none|d|de|e, clock = engine's abstract non-decreasing 64-bit clock (the call's `now` lies between two clock readings taken by the harness); (c) N = 3 / 4 changes, page size 1..N, concrete instants 10,20,.. (ulids and tokens concrete) plus one run with symbolic instants for N = 1. " + _TRUST,
+        "assumptions": [
+            "ulid.MustNew = abstract instant + strictly increasing counter (monotonic entropy); timestamppb/time = one abstract non-decreasing clock",
+            "ulid.Parse returns the id after parse() filled it (gc evaluation order of `return id, parse(.., &id)`; go/ssa orders it the other way, see ENGINE_ISSUES)",
+            "preconditions of C12",
+        ],
+        "outside": ["SQL changelog", "clock going backwards between Writes (memory's horizon loop stops at the first too-new entry)", "histories longer than the bound (covered inductively for (a) only)"],
+    },
+    "C16": {
+        "jobs": c16,
+        "level_text": "bounded symbolic execution (K16b): for two stores with arbitrary distinct ids that hold a tuple with the same key, a model with the same id and assertions for that model id, every MemoryBackend mutator (Write, WriteAuthorizationModel, WriteAssertions, CreateStore, DeleteStore) called for store A leaves every read of store B (ReadPage, ReadChanges, FindLatest/ReadAuthorizationModel(s), ReadAssertions, GetStore, ListStores) unchanged - same objects - while it does take effect on A; after DeleteStore, GetStore reports ErrNotFound and ListStores omits the store; the assertion table key fmt.Sprintf(\"%s|%s\", store, model) is injective for ids without '|' (ULID alphabet). With ids that may contain '|' the solver finds the collision (store \"|\", model \"\") vs (store \"\", model \"|\"), replayed natively: outside the claim, run with VERIF_EXPLORE=1",
+        "level_note": "bounds: store ids = arbitrary byte strings <= 1 (quick) / 2 bytes (empty and '|' included) for Write, WriteAssertions, CreateStore, DeleteStore; the model mutator and model readers run with the concrete ids A and B (engine limitation: range over a map selected by a symbolic key); key injectivity: four arbitrary strings <= 2 / 3 bytes; cache keys (K16a) are a separate check. " + _TRUST,
+        "assumptions": ["store and model ids are ULIDs (no '|') for the injectivity claim", "concrete instants for Writes in the frame harness (ulids concrete)"],
+        "outside": ["SQL WHERE store = ?", "K16a cache-key constructors (separate harnesses)", "data left behind by DeleteStore for a re-created id (ids are never reused)"],
+    },
+    "C17": {
+        "jobs": c17,
+        "level_text": "bounded symbolic execution (K17b): over every sequence of <= 3 WriteAuthorizationModel calls into two stores (store of each write forked, model ids symbolic, pairwise distinct, models with or without type definitions): FindLatestAuthorizationModel is the last model written to that store (ErrNotFound for a store without models), ReadAuthorizationModel returns every earlier model unchanged (the very object, fields intact) in its own store only and ErrNotFound for models without types or foreign ids, ReadAuthorizationModels lists exactly the store's models in descending id order",
+        "level_note": "bounds: <= 3 writes, 2 stores, ids = arbitrary non-empty byte strings <= 2 (quick) / 3 bytes; K17a (command layer) and K17c (resolver caches) are separate checks. " + _TRUST,
+        "assumptions": ["model ids within one history are pairwise distinct and non-empty (ULIDs)"],
+        "outside": ["SQL", "validation (K17a) and typesystem resolution/caching (K17c)", "ReadAuthorizationModel with an empty id (memory returns the latest model)"],
+    },
+    "C31": {
+        "jobs": c31,
+        "level_text": "bounded symbolic execution (K31): over every sequence of <= N WriteAssertions calls on 2 stores x 2 models (which pair each call addresses is symbolic, ids symbolic strings without '|', lists of 0..2 assertions with contextual tuples): ReadAssertions returns for each of the four pairs the last list written for it - the very assertion objects, hence verbatim - other pairs are unaffected and a pair never written yields an empty non-nil list",
+        "level_note": "bounds: N = 2 operations (quick) / 3, ids <= 2 bytes, distinct store ids and distinct model ids; command layer (WriteAssertionsCommand/ReadAssertionsQuery) not included here. " + _TRUST,
+        "assumptions": ["ids contain no '|' (ULIDs); see C16 for what happens otherwise"],
+        "outside": ["SQL", "WriteAssertionsCommand / ReadAssertionsQuery mapping and validation"],
     },
 }
